@@ -188,8 +188,10 @@ def image_item(iid, data, wlog, bit_sectors=(), pad=0, do_remaster=True, expect=
     if expect:
         report['expect'] = expect
     if 'error' in item['api']:
+        # the library cannot open its own image: that is C01's clause (OpenFails); here the
+        # independent decoder's clauses are judged on their own
         item['api'] = {}
-        report['errors'] = list(report['errors']) + ['library_cannot_open']
+        do_remaster = False
     item['remaster'] = remaster(report, extra, data) if do_remaster else {'fixed1': [], 'fixed2': [], 'adv1': []}
     return item
 
